@@ -447,6 +447,18 @@ Proof.
   split; [reflexivity|]. split; [reflexivity|]. symmetry. apply flat3_lookup.
 Qed.
 
+Lemma nqp_spaces_l : forall ps0 ps1,
+  Forall (fun p => p + 1 <= nqp_spaces ps0 ps1) ps0 /\
+  Forall (fun p => p + 1 <= nqp_spaces ps0 ps1) ps1 /\
+  (ps0 ++ ps1 <> [] -> exists p, (In p ps0 \/ In p ps1) /\ nqp_spaces ps0 ps1 = p + 1).
+Proof.
+  intros ps0 ps1. unfold nqp_spaces.
+  assert (H := nqp_ge (ps0 ++ ps1)). apply Forall_app in H. destruct H as [H0 H1].
+  split; [exact H0|]. split; [exact H1|].
+  intros Hne. destruct (nqp_attained (ps0 ++ ps1) Hne) as (p & Hin & E).
+  exists p. split; [apply in_app_or; exact Hin | exact E].
+Qed.
+
 Lemma nqp_l : forall ps,
   Forall (fun p => p + 1 <= nqp ps) ps /\ (ps <> [] -> exists p, In p ps /\ nqp ps = p + 1).
 Proof. intros ps. split; [apply nqp_ge | apply nqp_attained]. Qed.
